@@ -1,6 +1,7 @@
 import DimodModel.Vars
 import DimodModel.VarsMore
 import DimodModel.VarsKeys
+import DimodModel.VarsObj
 import DimodModel.Wire
 open Wire
 
@@ -117,6 +118,77 @@ def aliasLine (line : String) : Option String :=
       pure s!"ok {String.intercalate "" (flags.map fun b => if b then "1" else "0")} {showState k.toV} {String.intercalate "," objs}"
   | _ => none
 
+
+/-! ### round 7: the whole object-level alphabet (`khist3`) and the inherited mixin methods (`kmix`) -/
+
+/-- an object in protocol form, type kept: `I:`int `B:`bool `F:`float `NI:`/`NF:` NumPy `s:`hex `T:[..+..]` -/
+partial def showPyKey : PyKey → String
+  | .int z => s!"I:{z}"
+  | .bool b => s!"B:{if b then 1 else 0}"
+  | .float z => s!"F:{z}"
+  | .npInt z => s!"NI:{z}"
+  | .npFloat z => s!"NF:{z}"
+  | .str s => "s:" ++ toHex s
+  | .tup l => "T:[" ++ String.intercalate "+" (l.map showPyKey) ++ "]"
+
+def showObjs (l : List PyKey) : String := String.intercalate "," (l.map showPyKey)
+
+def parseObjList (s : String) (sep : String) : Option (List (Option PyKey)) :=
+  if s.isEmpty then some [] else
+  (s.splitOn sep).mapM fun x => if x = "~" then some none else (parsePyKey? x).map some
+
+/-- tokens of `khist`, plus `E0:o|o|~` / `E1:…` extend (strict / permissive), `C` copy, `K` pickle, `D` deepcopy,
+    `S:a:b:c` slice (`-` = None) -/
+def parseKOp3 (t : String) : Option KState.KOp3 :=
+  match t.toList with
+  | ['p'] => some (.base (.base .pop))
+  | ['c'] => some (.base (.base .clear))
+  | ['r'] => some (.base (.base .relabelInts))
+  | ['C'] => some .copy
+  | ['K'] => some .pickle
+  | ['D'] => some .deepcopy
+  | '+' :: '~' :: [] => some (.base (.base (.append none false)))
+  | '+' :: r => (parsePyKeyChars r).map fun o => .base (.base (.append (some o) false))
+  | '?' :: r => (parsePyKeyChars r).map fun o => .base (.base (.append (some o) true))
+  | 'x' :: r => (parsePyKeyChars r).map fun o => .base (.remove o)
+  | 'E' :: p :: ':' :: r => (parseObjList (String.ofList r) "|").map fun vs => .extend vs (p = '1')
+  | 'S' :: ':' :: r =>
+    match (String.ofList r).splitOn ":" with
+    | [a, b, c] => do
+        let a ← parseOptInt a; let b ← parseOptInt b; let c ← parseOptInt c
+        pure (.slice ⟨a, b, c⟩)
+    | _ => none
+  | 'R' :: ':' :: r =>
+    if r.isEmpty then some (.base (.relabel [])) else
+    ((String.ofList r).splitOn "|").mapM (fun (kv : String) => match kv.splitOn ">" with
+      | [a, b] => do let a ← parsePyKey? a; let b ← parsePyKey? b; pure (a, b)
+      | _ => none) |>.map fun m => .base (.relabel m)
+  | _ => none
+
+def runK3 (ops : String) : Option (KState × String) := do
+  let parsed ← (if ops = "-" then some [] else (csv ops).mapM parseKOp3)
+  let (k, flags) := parsed.foldl (fun (acc : KState × List Bool) op => ((acc.1.step3 op).1, acc.2 ++ [(acc.1.step3 op).2]))
+    (KState.empty, [])
+  pure (k, String.intercalate "" (flags.map fun b => if b then "1" else "0"))
+
+def b01 (b : Bool) : String := if b then "1" else "0"
+
+def objLine (line : String) : Option String :=
+  match line.trimAscii.toString.splitOn " " with
+  | ["khist3", ops] => do
+      let (k, flags) ← runK3 ops
+      pure s!"ok {flags} {showState k.toV} {showObjs k.iterObjs}"
+  | ["kmix", ops, o, od] => do
+      let (k, _) ← runK3 ops
+      let o ← (if o = "-" then some [] else (csv o).mapM parsePyKey?)
+      let od ← (if od = "-" then some [] else (csv od).mapM parsePyKey?)
+      pure (s!"ok rev={showObjs k.reversedObjs} dj={b01 (k.isdisjoint o)} le={b01 (k.le od)} lt={b01 (k.lt od)} " ++
+        s!"ge={b01 (k.ge od)} gt={b01 (k.gt od)} and={showObjs (k.and o).iterObjs} or={showObjs (k.or o).iterObjs} " ++
+        s!"sub={showObjs (k.sub o).iterObjs} xor={showObjs (k.xor o).iterObjs} " ++
+        s!"eqseq={b01 (k.eqOther (.seq o))} eqset={b01 (k.eqOther (.set od))} " ++
+        s!"rsub={showObjs (k.rsub o).iterObjs} ror={showObjs (k.ror o).iterObjs} neseq={b01 (k.neOther (.seq o))}")
+  | _ => none
+
 def step (st : VState × List Label) (line : String) : (VState × List Label) × String :=
   match line.trimAscii.toString.splitOn " " with
   | ["index", l] => match parseLabel? l with
@@ -146,6 +218,9 @@ def step (st : VState × List Label) (line : String) : (VState × List Label) ×
     | none => (st, s!"err {showState s1} / {ms}")
   | _ =>
     match aliasLine line with
+    | some out => (st, out)
+    | none =>
+    match objLine line with
     | some out => (st, out)
     | none =>
     match parseOp2 line with
